@@ -45,6 +45,7 @@ type ChildCase struct {
 	// Raw: rawload mode hands this program (code, jt, jf, k) to seccomp(2) directly.
 	Raw [][4]uint32 `json:"raw,omitempty"`
 
+	Conc    *ConcCase    `json:"conc,omitempty"`
 	History *HistoryCase `json:"history,omitempty"`
 	TSync   *TSyncCase   `json:"tsync,omitempty"`
 	NNPCase *NNPCase     `json:"nnp_case,omitempty"`
@@ -56,6 +57,21 @@ type HistoryCase struct {
 	Calls    []LoadCall            `json:"calls"`
 	Policies map[string]PolicySpec `json:"policies"` // by kind
 	Probes   []uint64              `json:"probes"`   // probe syscall numbers issued on every thread after every call
+}
+
+// ConcCase: load calls issued concurrently by several pinned threads (C09, checked for linearizability).
+type ConcCase struct {
+	Plans    [][]ConcLoad          `json:"plans"` // per thread
+	Policies map[string]PolicySpec `json:"policies"`
+	Probes   []uint64              `json:"probes"`
+	Jitter   []int                 `json:"jitter"` // spin iterations before each thread's first call
+}
+
+// ConcLoad is one load: policy "valid<ID>" denies probe number ID.
+type ConcLoad struct {
+	ID    int    `json:"id"`
+	Flags uint32 `json:"flags"`
+	NNP   bool   `json:"nnp"`
 }
 
 // LoadCall is one step of a history.
